@@ -501,6 +501,19 @@ theorem noClass_requote {K : Char → Bool} (hK : EscapedClass K) (quoted : Bool
   · exact noClass_safelyQuote hK _
   · exact noClass_safelyUnquote U hK h
 
+/-- the same for a user name / password: `requoteNfkc` adds `%` and hex digits only
+(FX-C01-NFKCUSERINFO) -/
+theorem noClass_requote_auth {K : Char → Bool} (hK : EscapedClass K) (quoted : Bool)
+    {s : Str} (h : NoCtl s) : ∀ c ∈ requote quoted unquoteAuthItem s, K c = false := by
+  unfold requote
+  split
+  · exact noClass_safelyQuote hK _
+  · intro c hc
+    rcases mem_requoteNfkc_cases hc with h1 | rfl | h1
+    · exact noClass_safelyUnquote _ hK h c h1
+    · exact hK.not_printable (by unfold Printable; decide)
+    · exact hK.not_printable (by have := isHexDigit_toNat h1; unfold Printable; omega)
+
 theorem mem_getD_canonOpt_requote {q : Bool} {unq : Str → Str} {o : Option Str} {c : Char}
     (h : c ∈ (canonOpt q unq o).getD []) : ∃ u, o = some u ∧ c ∈ requote q unq u := by
   cases o with
@@ -567,10 +580,10 @@ theorem class_netloc {c : Char} (hc : c ∈ (canonParts puny quoted sf p).netloc
   · exfalso
     rcases mem_authPart h1 with h2 | h2 | e | e
     · obtain ⟨u, hsub, _, _, hcu⟩ := user_mem hpc quoted sf h h2
-      have := noClass_requote hK quoted _ (NoCtl.of_subset hsub hn) c hcu
+      have := noClass_requote_auth hK quoted (NoCtl.of_subset hsub hn) c hcu
       rw [hk] at this; cases this
     · obtain ⟨u, hsub, _, hcu⟩ := pass_mem hpc quoted sf h h2
-      have := noClass_requote hK quoted _ (NoCtl.of_subset hsub hn) c hcu
+      have := noClass_requote_auth hK quoted (NoCtl.of_subset hsub hn) c hcu
       rw [hk] at this; cases this
     · exact hnp (d := ':') (by unfold Printable; decide) e
     · exact hnp (d := '@') (by unfold Printable; decide) e
